@@ -84,6 +84,15 @@ func registerFamily(name string, props []string, run func(e *env)) {
 
 func runEpisode(f family, seed int64, strategy string) (*episodeResult, *vt.Sched, *env) {
 	e := &env{byData: map[int]*sub{}, params: map[string]int{}, family: f.name}
+	e.wfStatus = os.Getenv("VERIF_PROP") == "C16" // an extra scheduling point per job: only where it is judged
+	recEnqCount = 0
+	// the items of a batch have no handle of their own: whether each was accepted is what its
+	// queue answered
+	noteEnq = func(data int, ok bool) {
+		if s := e.byData[data]; s != nil && s.batch != nil {
+			s.accepted, s.rejected = ok, !ok
+		}
+	}
 	cfg := vt.Config{Seed: seed, Strategy: strategy, PCTDepth: 1 + int(seed%3), TickProb: 25, PoolMissProb: 7}
 	s := vt.Run(cfg, func() { f.run(e) })
 	res := &episodeResult{Family: f.name, Seed: seed, Strategy: strategy, Params: e.params, Events: len(s.Log),
